@@ -300,6 +300,35 @@ def run_case(case, ctx, acc):
             if ck not in seen:
                 seen.add(ck)
                 acc.viols.append(Viol(sub, 'titrate-only', ck, what, inputs=dict(pdb=text, opts=list(opts))))
+    # the option must not make the result depend on the order in which the chains are written where the calculation without the
+    # option does not: an unlisted residue acts as hydrogen-bond partner exactly as it does in the unrestricted calculation, whose
+    # pairwise rules look at the two groups, not at their position in the file
+    if case.get('src') == 'corpus' and case['d'].get('t') in ('pair', 'cluster'):
+        blocks, cur = [], []
+        for it in s.items:
+            cur.append(it)
+            if isinstance(it, str) and it.startswith('TER'):
+                blocks.append(cur)
+                cur = []
+        if cur:
+            blocks.append(cur)
+        if len(blocks) > 1:
+            text_sw = gen.to_text(gen.S([it for b in reversed(blocks) for it in b]).renumber_serials())
+            if cmp.diff_records(r0, pk.record(pk.run(text_sw)), tol=1e-9, keymap=str):
+                acc.extra['chain_order_matters_without_the_option(swap not judged)'] += 1
+            else:
+                for L in lists:
+                    # (exactly one unlisted residue: two or more unlisted groups of one type all sit at their model pKa - they get no
+                    # desolvation - and the program breaks that exact tie by position in the file, which the statement does not forbid)
+                    if len(L) == len(reportable) - 1 and len(L) > 0:
+                        opts = ('-i', arg_of(L))
+                        d = cmp.diff_records(pk.record(pk.run(text, opts)), pk.record(pk.run(text_sw, opts)), tol=1e-9, keymap=str)
+                        acc.n += 1
+                        acc.extra['chain_order_swaps'] += 1
+                        if d:
+                            acc.viols.append(Viol(dict(case, titrate_only=opts[1], swap=True), 'titrate-only',
+                                                  'list-makes-result-depend-on-chain-order/%s' % d[0][0], str(d[0])[:300],
+                                                  inputs=dict(pdb=text, pdb_swapped=text_sw, opts=list(opts))))
     # ghosts: record with ghosts == record without (same list)
     for L in lists:
         if len(L) in (1, len(reportable)):
